@@ -292,6 +292,7 @@ def parseOp (s : String) : Option Op :=
   | ["bs"] => some .beamspread
   | ["rbs"] => some .revBeamspread
   | ["tr"] => some .transRefl
+  | ["rtr"] => some .revTransRefl
   | _ => none
 
 def showRes : Res → String
